@@ -67,8 +67,19 @@ func genCase(t *rapid.T) Case {
 	if c.PubChunk == 1 || c.PubChunk == 7 {
 		maxNal = 800 // tiny chunks: keep chunk counts sane
 	}
+	// whole-message payload lengths k*m-1, k*m, k*m+1 for m = the publisher's chunk size (lal's chunk reader) and
+	// m = 4096 (lal's own chunk size towards RTMP subscribers), applied to audio as well as video messages
+	var msgEdges []int
+	for _, m := range []int{cs, 4096} {
+		if m < 64 {
+			msgEdges = append(msgEdges, 8*m, 30*m, 100*m)
+		} else {
+			msgEdges = append(msgEdges, m, 2*m, 3*m)
+		}
+	}
 	o := gen.StreamOpts{Video: []string{"avc", "avc", "hevc", ""}, Audio: []string{"aac", "aac", "g711a", "opus", ""},
-		MaxGops: 4, MaxGopLen: 5, MaxNalLen: maxNal, SizeEdges: edges, AllowEmpty: true, HeaderChurn: true, TsJumps: true, MultiNal: true, Cts: true}
+		MaxGops: 4, MaxGopLen: 5, MaxNalLen: maxNal, SizeEdges: edges, AllowEmpty: true, HeaderChurn: true, TsJumps: true, MultiNal: true, Cts: true,
+		MsgSizeEdges: msgEdges, MidMeta: true, MidHeaders: true, AscChurn: true, TsBack: true}
 	c.Codecs, c.Items = gen.GenStream(t, o)
 	for range c.Items {
 		c.FmtWish = append(c.FmtWish, rapid.IntRange(0, 3).Draw(t, "fmtWish"))
@@ -369,7 +380,12 @@ func expectsData(c Case, P *pub, cs Cons, itemToP []int) bool {
 		gop = c.FlvGop
 	}
 	if gop > 0 {
-		for i := 0; i < j; i++ {
+		// a cached key frame releases it - unless a video sequence header followed that key frame: whether a re-sent
+		// header empties the cache is replay selection (C02), so nothing is demanded here in that case
+		for i := j - 1; i >= 0; i-- {
+			if P.kind[i] == "vsh" {
+				break
+			}
 			if P.key[i] {
 				return true
 			}
@@ -445,6 +461,117 @@ func checkConsumer(c Case, P *pub, index map[[32]byte][]int, ci int, spec Cons, 
 		}
 		k++
 	}
+	// published headers may repeat (same content, same timestamp): a leading header record that equals one published
+	// before the join may just as well be the live copy published after it, so every split point up to k is tried
+	var first *pbt.Violation
+	for kk := k; kk >= 0; kk-- {
+		v := checkRun(c, P, who, spec, recs, cands, kk, j, endP, left)
+		if v == nil {
+			return nil
+		}
+		if first == nil {
+			first = v
+		}
+	}
+	return first
+}
+
+// checkRun judges the records behind a prologue of k records.
+func checkRun(c Case, P *pub, who string, spec Cons, recs []lalclient.Rec, cands [][]int, k, j, endP int, left bool) *pbt.Violation {
+	v := checkRunGreedy(c, P, who, spec, recs, cands, k, j, endP, left)
+	if v == nil || explained(P, cands[k:], j, endP, left) {
+		return nil
+	}
+	return v
+}
+
+// explained: the greedy index assignment of checkRunGreedy can go wrong when published messages repeat (re-sent
+// metadata / sequence headers with equal timestamps).  Before a violation is reported every assignment is tried:
+// the records must be  R ++ L  (R: replayed messages, strictly increasing indices < j; L: indices f, f+1, f+2, ...
+// with f == j after a replay and f <= the first key frame after the join otherwise)  or  H ++ L  (H: metadata /
+// sequence headers published in [j, first key frame) and handed to a consumer that waits for that key frame).
+func explained(P *pub, restC [][]int, j, endP int, left bool) bool {
+	n := len(restC)
+	hasV := hasVideoAt(P, j)
+	bound := j
+	if hasV {
+		bound = len(P.recs)
+		for x := j; x < len(P.recs); x++ {
+			if P.key[x] {
+				bound = x
+				break
+			}
+		}
+	}
+	has := func(c []int, x int) bool {
+		for _, y := range c {
+			if y == x {
+				return true
+			}
+		}
+		return false
+	}
+	for mode := 0; mode < 2; mode++ {
+		if mode == 1 && !hasV {
+			continue
+		}
+		cur := -1
+		for n0 := 0; n0 <= n; n0++ {
+			if n0 > 0 {
+				// extend the prefix by record n0-1
+				pick := -1
+				for _, x := range restC[n0-1] {
+					if x <= cur {
+						continue
+					}
+					if (mode == 0 && x < j) || (mode == 1 && x >= j && x < bound && isHeaderKind(P.kind[x])) {
+						pick = x
+						break
+					}
+				}
+				if pick < 0 {
+					break
+				}
+				cur = pick
+			}
+			if n0 == n {
+				if left {
+					return true
+				}
+				break
+			}
+			for _, f := range restC[n0] {
+				if f < j {
+					continue
+				}
+				if mode == 0 && n0 > 0 && f != j {
+					continue
+				}
+				if !(mode == 0 && n0 > 0) && f > bound {
+					continue
+				}
+				ok := true
+				reached := false
+				for i := n0; i < n; i++ {
+					if !has(restC[i], f+i-n0) {
+						ok = false
+						break
+					}
+					if !left && f+i-n0 == endP {
+						reached = true
+						break
+					}
+				}
+				if ok && (left || reached) {
+					return true
+				}
+			}
+		}
+	}
+	return false
+}
+
+func checkRunGreedy(c Case, P *pub, who string, spec Cons, recs []lalclient.Rec, cands [][]int, k, j, endP int, left bool) *pbt.Violation {
 	rest := recs[k:]
 	restC := cands[k:]
 	// V2: strictly increasing indices
@@ -473,6 +600,28 @@ func checkConsumer(c Case, P *pub, index map[[32]byte][]int, ci int, spec Cons, 
 			break
 		}
 	}
+	replayed := fpos > 0
+	// start-up headers: a consumer that is held back until the next key frame (the stream has video and nothing was
+	// replayed) is still handed the metadata and sequence headers published meanwhile - they belong to its start-up
+	// prologue, the contiguous run begins behind them
+	if fpos == 0 && hasVideoAt(P, j) {
+		bound := len(P.recs)
+		for x := j; x < len(P.recs); x++ {
+			if P.key[x] {
+				bound = x
+				break
+			}
+		}
+		n := 0
+		for n < len(idx) && idx[n] < bound && isHeaderKind(P.kind[idx[n]]) {
+			n++
+		}
+		if n == len(idx) {
+			f, fpos = -1, -1
+		} else if n > 0 {
+			f, fpos = idx[n], n
+		}
+	}
 	// last index this consumer must have
 	last := endP
 	if left {
@@ -498,7 +647,7 @@ func checkConsumer(c Case, P *pub, index map[[32]byte][]int, ci int, spec Cons, 
 		return pbt.V("run-ended-early/"+spec.Kind, "%s: last record is published index %d, expected the run to reach %d", who, idx[len(idx)-1], last)
 	}
 	// V4: start bound
-	if fpos > 0 {
+	if replayed {
 		// replayed (cached) data precedes the live run: it must connect seamlessly
 		if f != j {
 			return pbt.V("gap-after-replay/"+spec.Kind, "%s: cached data up to index %d is followed by live data starting at %d, join point %d", who, idx[fpos-1], f, j)
@@ -551,6 +700,8 @@ func classify(c Case) (bool, []string) {
 	if cs == 0 {
 		cs = 128
 	}
+	var prevV, prevA uint32
+	seenV, seenA, seenMedia := false, false, false
 	for _, it := range c.Items {
 		if it.Kind == "empty" {
 			labels = append(labels, "zero-length-msg")
@@ -561,6 +712,60 @@ func classify(c Case) (bool, []string) {
 			if l >= m-2 && (l%m <= 2 || l%m >= m-2) {
 				edge = true
 			}
+			if (it.Kind == "audio" || it.Kind == "video") && m >= 64 && l >= m-1 && (l%m <= 1 || l%m == m-1) {
+				// the whole payload ends exactly at / one byte before / one byte behind a chunk boundary
+				which := "local-4096"
+				if m == cs && cs != 4096 {
+					which = "negotiated"
+				}
+				labels = append(labels, "len-on-chunk-multiple:"+it.Kind+":"+which)
+				if l%m == 0 {
+					labels = append(labels, "len-exact-multiple:"+it.Kind)
+				}
+			}
+		}
+		switch it.Kind {
+		case "meta":
+			if seenMedia {
+				labels = append(labels, "mid-stream-metadata")
+				if it.Sdf {
+					labels = append(labels, "mid-stream-metadata:sdf")
+				}
+			}
+		case "ash":
+			if seenMedia {
+				labels = append(labels, "mid-stream-aac-header")
+				if it.Variant != 0 {
+					labels = append(labels, "aac-config-change")
+				}
+			}
+		case "vsh":
+			if seenMedia {
+				labels = append(labels, "mid-stream-video-header")
+			}
+		case "video":
+			if seenV && it.Ts < prevV {
+				if prevV-it.Ts > 1<<31 {
+					labels = append(labels, "ts-wrap-2^32")
+				} else {
+					labels = append(labels, "ts-backward:video")
+				}
+			} else if seenV && it.Ts == prevV {
+				labels = append(labels, "ts-equal")
+			}
+			prevV, seenV, seenMedia = it.Ts, true, true
+		case "audio":
+			if seenA && it.Ts < prevA {
+				if prevA-it.Ts > 1<<31 {
+					labels = append(labels, "ts-wrap-2^32")
+				} else {
+					labels = append(labels, "ts-backward:audio")
+				}
+			}
+			prevA, seenA, seenMedia = it.Ts, true, true
+		}
+		if it.Ts == 0xFFFFFF {
+			labels = append(labels, "ts==0xFFFFFF")
 		}
 		if it.Ts >= 0xFFFFFF {
 			edge = true
